@@ -5,7 +5,7 @@ import ClaripyProofs.Lemmas.Solver.CachelessExtrema
 namespace Claripy.Solver
 
 /-- the invariant without a carried property -/
-abbrev CLInv0 (U : List Con) (s : St) : Prop := CLInv (fun _ _ _ => True) U s
+abbrev CLInv0 (U : List Con) (s : St) : Prop := CLInv (fun _ => True) U s
 
 /-- **Registry** (hash-consing, C06): among the constraints a run can see — the user's, `false`, the simplifier's
 output — equal ids mean equal meaning; all of them are well formed -/
@@ -134,6 +134,7 @@ structure Added (s s' : St) (ec new : List Con) : Prop where
   track : s'.fe.track = s.fe.track
   objs : s'.objs = s.objs
   reuse : s'.reuse = s.reuse
+  fin : s'.fe.finalized = s.fe.finalized
   sub : ∀ c ∈ new, c ∈ ec
   ids : ∀ i, (i ∈ s'.fe.hashes ∨ i ∈ s'.fe.woAnnot) → (i ∈ s.fe.hashes ∨ i ∈ s.fe.woAnnot) ∨ ∃ c ∈ new, c.id = i
   cover : ∀ c ∈ ec, c ∈ new ∨ (c.id ∈ s.fe.hashes ∨ c.id ∈ s.fe.woAnnot) ∨ ∃ c' ∈ new, c'.id = c.id
@@ -165,7 +166,7 @@ theorem dedupAdd_spec (ec : List Con) (s : St) :
   by_cases hf : (ec.filter fun c => !s.fe.hashes.contains c.id).isEmpty = true
   · have hnil : (ec.filter fun c => !s.fe.hashes.contains c.id) = [] := by simpa using hf
     simp only [hf, ↓reduceIte, hnil]
-    refine ⟨by simp, by simp, rfl, rfl, rfl, rfl, by simp, fun i h => Or.inl h, ?_⟩
+    refine ⟨by simp, by simp, rfl, rfl, rfl, rfl, rfl, by simp, fun i h => Or.inl h, ?_⟩
     intro c hc
     right; left; left
     by_cases hcon : c.id ∈ s.fe.hashes
@@ -185,7 +186,8 @@ theorem dedupAdd_spec (ec : List Con) (s : St) :
     have hsolver : fe'.solver = s.fe.solver := by rw [h2]
     have htrack : fe'.track = s.fe.track := by rw [h2]
     have hhash : fe'.hashes = s.fe.hashes := by rw [h2]
-    refine ⟨by simp [hcons], by simp [htoadd], by simp [hsolver], by simp [htrack], rfl, rfl, ?_, ?_, ?_⟩
+    have hfin : fe'.finalized = s.fe.finalized := by rw [h2]
+    refine ⟨by simp [hcons], by simp [htoadd], by simp [hsolver], by simp [htrack], rfl, rfl, by simp [hfin], ?_, ?_, ?_⟩
     · intro c hc; exact (List.mem_filter.mp (h3 c hc)).1
     · intro i hi
       rcases hi with hi | hi
@@ -249,9 +251,18 @@ theorem filtered_equiv {E : Env} {R : Con → Prop} (hR : Reg R E) {self : Ops} 
       rw [h2, holdsAll_append]
       simp [holdsAll, hR.falseSem a]
 
+/-- a change of the frontend record that leaves the Z3 objects alone (add, simplify, downsize) -/
+structure MStep (s s' : St) : Prop where
+  objs : s'.objs = s.objs
+  solver : s'.fe.solver = s.fe.solver ∨ s'.fe.solver = none
+  reuse : s'.reuse = s.reuse
+  fin : s.fe.finalized = true → s'.fe.finalized = true
+
+theorem MStep.refl (s : St) : MStep s s := ⟨rfl, Or.inl rfl, rfl, id⟩
+
 theorem clAdd_spec {E : Env} {R : Con → Prop} (hR : Reg R E) {self : Ops} (hs : SelfOk self) (U : List Con) (s : St)
     (h : CLInv0 U s) (hd : DInv R U s) (cs : List Con) (hcs : ∀ c ∈ cs, R c) (inv : Bool) :
-    ∃ added s', clAdd E self cs inv s = (.ok added, s') ∧ CLInv0 (U ++ cs) s' ∧ DInv R (U ++ cs) s' := by
+    ∃ added s', clAdd E self cs inv s = (.ok added, s') ∧ CLInv0 (U ++ cs) s' ∧ DInv R (U ++ cs) s' ∧ MStep s s' := by
   unfold clAdd
   obtain ⟨hecR, hecEq⟩ := filtered_equiv hR hs cs hcs
   generalize filteredOf E self cs = ec at hecR hecEq ⊢
@@ -260,7 +271,7 @@ theorem clAdd_spec {E : Env} {R : Con → Prop} (hR : Reg R E) {self : Ops} (hs 
   by_cases hemp : cs.isEmpty = true
   · have : cs = [] := by simpa using hemp
     subst this
-    refine ⟨[], s, by simp [pure, M.pure], ?_, ?_⟩
+    refine ⟨[], s, by simp [pure, M.pure], ?_, ?_, MStep.refl s⟩
     · simpa using h
     · simpa using hd
   · simp only [hemp, Bool.false_eq_true, ↓reduceIte]
@@ -269,10 +280,10 @@ theorem clAdd_spec {E : Env} {R : Con → Prop} (hR : Reg R E) {self : Ops} (hs 
       subst this
       simp only [List.isEmpty_nil, Bool.not_true, Bool.false_eq_true, ↓reduceIte, pure, M.pure]
       have hU' : ∀ a, holdsAll (U ++ cs) a = holdsAll U a := by intro a; rw [hU a]; simp [holdsAll]
-      refine ⟨[], s, rfl, ⟨h.core, fun a => by rw [hU' a]; exact h.equiv a, trivial⟩, ⟨hd.consR, fun c hc hi a ha => hd.seen c hc hi a (by rw [← hU' a]; exact ha)⟩⟩
+      refine ⟨[], s, rfl, ⟨h.core, fun a => by rw [hU' a]; exact h.equiv a, ⟨_, trivial, QStep.refl _⟩⟩, ⟨hd.consR, fun c hc hi a ha => hd.seen c hc hi a (by rw [← hU' a]; exact ha)⟩, MStep.refl s⟩
     · simp only [hece, Bool.not_false, ↓reduceIte]
       obtain ⟨new, s', heq, had⟩ := dedupAdd_spec ec s
-      refine ⟨new, s', heq, ?_, ?_⟩
+      refine ⟨new, s', heq, ?_, ?_, ⟨had.objs, Or.inl had.solver, had.reuse, fun hf => by rw [had.fin]; exact hf⟩⟩
       -- every element of `ec` holds wherever U and the new constraints hold
       have hcov : ∀ a, holdsAll U a = true → holdsAll new a = true → holdsAll ec a = true := by
         intro a hUa hna
@@ -298,7 +309,7 @@ theorem clAdd_spec {E : Env} {R : Con → Prop} (hR : Reg R E) {self : Ops} (hs 
             · rfl
             · have := hsubsem a hea; simp [hna] at this
           · exact (hcov a hUa hna).symm
-      · refine ⟨⟨?_, ?_, ?_, ?_⟩, hcons, trivial⟩
+      · refine ⟨⟨?_, ?_, ?_, ?_⟩, hcons, ⟨_, trivial, QStep.refl _⟩⟩
         · intro a ha
           rw [had.cons, holdsAll_append] at ha
           rw [had.toAdd, holdsAll_append]
@@ -406,20 +417,30 @@ theorem clSimplify_spec {E : Env} {R : Con → Prop} (hR : Reg R E) (hS : SimpOn
   cases hsimp : s.fe.simplified with
   | true =>
     simp only [↓reduceIte]
-    exact ⟨⟨⟨h.core.toAdd_sub, h.core.obj, h.core.noReuse, h.core.untracked⟩, h.equiv, trivial⟩,
+    exact ⟨⟨⟨h.core.toAdd_sub, h.core.obj, h.core.noReuse, h.core.untracked⟩, h.equiv, ⟨_, trivial, QStep.refl _⟩⟩,
            ⟨hd.consR, hseen s.fe.constraints hd.consR h.equiv⟩⟩
   | false =>
     simp only [Bool.false_eq_true, ↓reduceIte]
     by_cases hemp : s.fe.constraints.isEmpty = true
     · simp only [hemp, ↓reduceIte]
-      exact ⟨⟨⟨fun a _ => rfl, fun r hr => by simp at hr, h.core.noReuse, h.core.untracked⟩, h.equiv, trivial⟩,
+      exact ⟨⟨⟨fun a _ => rfl, fun r hr => by simp at hr, h.core.noReuse, h.core.untracked⟩, h.equiv, ⟨_, trivial, QStep.refl _⟩⟩,
              ⟨hd.consR, hseen s.fe.constraints hd.consR h.equiv⟩⟩
     · simp only [hemp, Bool.false_eq_true, ↓reduceIte]
       have heq := hS s.fe.constraints s.tick hd.consR
       have hoR := hR.simp_closed s.fe.constraints s.tick hd.consR
       have hequ : ∀ a, holdsAll (E.simp s.fe.constraints s.tick) a = holdsAll U a := fun a => by rw [heq a, h.equiv a]
-      exact ⟨⟨⟨fun a _ => rfl, fun r hr => by simp at hr, h.core.noReuse, h.core.untracked⟩, hequ, trivial⟩,
+      exact ⟨⟨⟨fun a _ => rfl, fun r hr => by simp at hr, h.core.noReuse, h.core.untracked⟩, hequ, ⟨_, trivial, QStep.refl _⟩⟩,
              ⟨hoR, hseen _ hoR hequ⟩⟩
+
+theorem clSimplify_mstep (E : Env) (s : St) : MStep s (clSimplifySt E s).2 := by
+  unfold clSimplifySt
+  cases hsimp : s.fe.simplified with
+  | true => simp only [↓reduceIte]; exact ⟨rfl, Or.inl rfl, rfl, id⟩
+  | false =>
+    simp only [Bool.false_eq_true, ↓reduceIte]
+    by_cases hemp : s.fe.constraints.isEmpty = true
+    · simp only [hemp, ↓reduceIte]; exact ⟨rfl, Or.inr rfl, rfl, id⟩
+    · simp only [hemp, Bool.false_eq_true, ↓reduceIte]; exact ⟨rfl, Or.inr rfl, rfl, id⟩
 
 /-- FullFrontend.downsize (the mixins of this class do not override it) -/
 def clDownsizeSt (s : St) : St := { s with fe := { s.fe with solver := none, toAdd := [] } }
@@ -428,7 +449,9 @@ theorem clStage_downsize (E : Env) (k : Nat) (s : St) : (clStage E (k + 1)).down
 
 theorem clDownsize_spec {R : Con → Prop} (U : List Con) (s : St) (h : CLInv0 U s) (hd : DInv R U s) :
     CLInv0 U (clDownsizeSt s) ∧ DInv R U (clDownsizeSt s) :=
-  ⟨⟨⟨fun a _ => rfl, fun r hr => by simp [clDownsizeSt] at hr, h.core.noReuse, h.core.untracked⟩, h.equiv, trivial⟩,
+  ⟨⟨⟨fun a _ => rfl, fun r hr => by simp [clDownsizeSt] at hr, h.core.noReuse, h.core.untracked⟩, h.equiv, ⟨_, trivial, QStep.refl _⟩⟩,
    ⟨hd.consR, hd.seen⟩⟩
+
+theorem clDownsize_mstep (s : St) : MStep s (clDownsizeSt s) := ⟨rfl, Or.inr rfl, rfl, id⟩
 
 end Claripy.Solver
